@@ -344,6 +344,17 @@ def clamp64(i):
 
 
 def gen_float(rng):
+    """finite doubles; only those whose repr text SQLite's own text->double conversion (asked through the
+    stdlib sqlite3 module, not through the code under test) parses back exactly: SQLite 3.40 misrounds about
+    1 in 10^4 17-digit literals by one ulp (and most beyond 1e+-275); that engine defect has its own corpus
+    witness and must not make seeds flake"""
+    while True:
+        f = gen_float_raw(rng)
+        if engine_float(repr(f)) == f:
+            return f
+
+
+def gen_float_raw(rng):
     r = rng.random()
     if r < 0.3:
         return rng.randint(-10 ** 6, 10 ** 6) / rng.choice([1, 2, 4, 8, 10, 100, 1000, 3, 7])
@@ -685,6 +696,29 @@ def same(a, b):
         return False
 
 
+def float_alter_key(v, reads):
+    """narrow classes for an altered FloatCol value: the SQLite text->double misrounding (exactly one ulp, all
+    read paths agreeing, decimal exponent magnitude >= 250) has its own key; anything else says how far off and where"""
+    import math
+
+    def bits(f):
+        b = struct.unpack('>q', struct.pack('>d', f))[0]
+        return b if b >= 0 else -(b & 0x7FFFFFFFFFFFFFFF)
+    off = [r for r in reads if not (type(r) is float and r == v)]      # the reads that do not show the written value
+    agree = all(type(r) is float and r == off[0] for r in off)          # (the writer's cache legitimately still does)
+    r = off[0]
+    try:
+        ulps = abs(bits(r) - bits(v)) if (type(r) is float and r == r) else None
+    except Exception:
+        ulps = None
+    e10 = abs(int(math.floor(math.log10(abs(v))))) if v != 0 else 0
+    if agree and ulps == 1 and e10 >= 250:
+        return 'C01:FloatCol:sqlite-atof-1ulp-at-extreme-exponent'
+    err = 'nan-or-nonfloat' if ulps is None else ('1ulp' if ulps == 1 else ('2-16ulp' if 2 <= ulps <= 16 else '>16ulp'))
+    return 'C01:FloatCol:domain value float altered (%s, |exp10|%s250, read paths %s)' % (
+        err, '>=' if e10 >= 250 else '<', 'agree' if agree else 'differ among themselves')
+
+
 def describe(T, v, path, variant, cache):
     return {'type': T, 'value': repr(v)[:200], 'path': path, 'variant': variant, 'cache': cache,
             'replay': replay_token(T, v)}
@@ -751,8 +785,10 @@ def oracle(ctx, e, T, v, path, variant, cache, out, cls):
     if dom:
         for n, r in vals.items():
             if not same(r, v):
-                ctx.oracle_fail('C01:%s:domain value %s altered' % (col, vc),
-                                '%s: wrote %r by %s, %s read gives %r' % (col, v, path, n, r), desc)
+                key = 'C01:%s:domain value %s altered' % (col, vc)
+                if T == 'float' and type(v) is float and type(r) is float:
+                    key = float_alter_key(v, list(vals.values()))
+                ctx.oracle_fail(key, '%s: wrote %r by %s, %s read gives %r' % (col, v, path, n, r), desc)
                 return
             if type(r) is not type(v) and T not in ('pickle', 'json'):
                 ctx.oracle_fail('C01:%s:%s read back as %s' % (col, vc, type(r).__name__),
